@@ -325,6 +325,11 @@ func (m *ExponentialStepMinting) AmountToMint(logger log.Logger, startTime time.
 	if endTime != nil && blockTime.After(*endTime) {
 		now = *endTime
 	}
+	if now.Before(startTime) {
+		// the period has not started yet (possible after a parameter update moved the end
+		// of the previous period into the future): nothing to mint, as for LinearMinting
+		return sdk.ZeroDec()
+	}
 	passedTime := int64(now.Sub(startTime))
 	epoch := int64(m.StepDuration)
 	numOfPassedEpochs := passedTime / epoch
